@@ -20,7 +20,7 @@ ProbeSeqs(q) == { q, <<97, 97>> \o q \o <<97, 97>>, <<97, 97, 97, 97>>, <<97, 99
 ProbeItems == UNION {{<<sq, q>> : sq \in ProbeSeqs(q)} : q \in ProbeQs}
 ScanItems == SetToSeq(ProbeItems \cup UNION {{<<s, q>> : s \in SeqsUpTo(SeqToSet(Alphas[a]), MaxSeq), q \in SeqsUpTo(SeqToSet(Alphas[a]), MaxQ) \ {<<>>}} : a \in 1..Len(Alphas)})
 NItems == IF Mode = "tables" THEN 1 ELSE (Len(ScanItems) + Batch - 1) \div Batch
-Picked == SelectSeq([j \in 1..NItems |-> j], LAMBDA j : j % Stride = Offset % Stride)
+Picked == SelectSeq([j \in 1..NItems |-> j], LAMBDA j : (j + (j \div Stride) + (j \div (Stride * Stride))) % Stride = Offset % Stride)
 
 LetterCodes == SetToSeq(Letters \cup {c + 32 : c \in Letters} \cup {45, 42, 88, 120})
 BatchJson(b) ==
